@@ -9,13 +9,14 @@
   * `Log_triple_partial`, `Log2_triple_partial`, `Log10_triple_partial` (+ `…_total_partial`): for
     EVERY mode byte, provided the working-format logarithm of the argument is not the degenerate
     pair "zero significand with sticky flag −1" (`Good`).
-  What is missing for the unconditional statement in the directed modes ToZero/ToNegativeInf/
+  What this file leaves open for the unconditional statement in the directed modes ToZero/ToNegativeInf/
   ToPositiveInf: `decomposed192.log` ends in a subtraction/addition of two computed quantities
   (`ln m − k·ln 10`, `± ln msd`); if that difference cancelled to a zero significand while a discarded
   low digit of the subtrahend left the flag at −1, `reduce192` would be entered with `(0, −1)` and the
   rounding kernel would not terminate (see `TotalRound.round_zero_stuck`).  Excluding this needs a
-  value-level bound on the series (mathematically the difference vanishes only for the argument 1,
-  where the code takes the addition path), which is beyond a pure totality argument.
+  value-level bound on the series.  DONE LATER: `D128/Proofs/TotalLogAll.lean` discharges `Good` from the
+  accuracy theorem `LogAcc.log_spec` (`Log_total_all`, `Log2_total_all`, `Log10_total_all`: every mode
+  byte), and `D128/Proofs/TotalLog1pAll.lean` does the same for `Log1p` on arguments with exponent ≥ −3264.
   * helpers: `d192_add1neg_lt1_triple` (`1 − x ≠ 0` for `0 < x < 1`, needed so that `Log1p` hands a
     non-zero argument to `decomposed192.log`), `vget_pow192_big`, `vget_pow128_triple`,
     `decompose_exp_range`, `d192_log_triple_good`, `logArg`.
